@@ -30,7 +30,17 @@ def direct_subclass(ck, tf):
 
 def main(tier, seed):
     import c11
+    # what an update decides around its per-point updater is regenerated from database.py (symbolic execution of _update_helper, with update, update_all
+    # and - through py2coq_read.py - the read_op decorator) and proved equal to the model's update (proofs/UpdateGenP.v)
+    refused = []
+
+    def regen():
+        run_translator("py2coq_read.py", "tinyflux", "gen/ReadGen.v", refused)
+        run_translator("py2coq_update.py", "tinyflux", "gen/UpdateGen.v", refused)
     return dbtie.db_check("C03", tier, seed, PROFILE, 650, 6000, "Prop_C03",
                           "user callables and re are an environment the theorems quantify over; the tie instantiates them with the twin table",
-                          direct=lambda ck, tf: (c11.direct_exceptions(ck, tf, "C03"), direct_subclass(ck, tf)))
-
+                          direct=lambda ck, tf: (c11.direct_exceptions(ck, tf, "C03"), direct_subclass(ck, tf)),
+                          pre=regen, extra_cov={"translator": {"source": "tinyflux/database.py: TinyFlux._update_helper (symbolic execution; its two rewrite loops, the except clause and the three statements after the "
+                                                                         "rewrite recognised literally, in their order), update, update_all, read_op / reindex -> coq/gen/UpdateGen.v, coq/gen/ReadGen.v (regenerated on this run); "
+                                                                         "the per-point updater _generate_updater stays with the hand model",
+                                                               "refused": refused, "equivalence_theorem": "gen_update_helper_eq, gen_update_eq, gen_update_all_eq (C03_source_*_is_the_model, C03_source_update_exact, C03_source_update_all_exact)"}})
